@@ -120,13 +120,88 @@ pub fn near_miss_creds(rng: &mut Rng, c: &RefCreds) -> Vec<RefCreds> {
     out
 }
 
+/// IPv4 addresses with a special meaning (RFC 6890): this-network, loopback, private, link-local,
+/// CGN, multicast, broadcast, documentation, and the magic cookie.
+pub const SPECIAL_V4: [[u8; 4]; 14] = [
+    [0, 0, 0, 0],
+    [127, 0, 0, 1],
+    [10, 0, 0, 1],
+    [172, 16, 254, 1],
+    [192, 168, 1, 1],
+    [169, 254, 0, 9],
+    [100, 64, 0, 1],
+    [224, 0, 0, 251],
+    [239, 255, 255, 250],
+    [255, 255, 255, 255],
+    [192, 0, 2, 1],
+    [198, 51, 100, 7],
+    [203, 0, 113, 9],
+    [0x21, 0x12, 0xa4, 0x42],
+];
+
+/// IPv6 prefixes with a special meaning (RFC 6890 / RFC 4291): (prefix bytes, prefix length in bytes).
+/// ::ffff:0:0/96 IPv4-mapped, ::/96 IPv4-compatible, 64:ff9b::/96 NAT64, 2002::/16 6to4,
+/// 2001::/32 Teredo, fe80::/10 link-local, fc00::/7 ULA, ff02:: multicast, 2001:db8::/32
+/// documentation, 100::/64 discard, ::ffff:0:0:0/96 (SIIT translated).
+pub const SPECIAL_V6_PREFIX: [(&[u8], usize); 11] = [
+    (&[0, 0, 0, 0, 0, 0, 0, 0, 0, 0, 0xff, 0xff], 12),
+    (&[0, 0, 0, 0, 0, 0, 0, 0, 0, 0, 0, 0], 12),
+    (&[0, 0x64, 0xff, 0x9b, 0, 0, 0, 0, 0, 0, 0, 0], 12),
+    (&[0x20, 0x02], 2),
+    (&[0x20, 0x01, 0, 0], 4),
+    (&[0xfe, 0x80, 0, 0, 0, 0, 0, 0], 8),
+    (&[0xfd, 0x00], 2),
+    (&[0xff, 0x02, 0, 0, 0, 0, 0, 0, 0, 0, 0, 0], 12),
+    (&[0x20, 0x01, 0x0d, 0xb8], 4),
+    (&[0x01, 0, 0, 0, 0, 0, 0, 0], 8),
+    (&[0, 0, 0, 0, 0, 0, 0, 0, 0xff, 0xff, 0, 0], 12),
+];
+
+/// An address from one of the special-purpose ranges; for IPv6 the bytes after the prefix are an
+/// embedded special IPv4 address (in the last four bytes), zero, or random.
+pub fn special_addr(rng: &mut Rng, v6: bool) -> RefAddr {
+    let mut ip = [0u8; 16];
+    if !v6 {
+        let mut a = SPECIAL_V4[rng.usize(SPECIAL_V4.len())];
+        if rng.chance(1, 3) {
+            a[3] = rng.byte();
+        }
+        ip[..4].copy_from_slice(&a);
+    } else {
+        let (p, n) = SPECIAL_V6_PREFIX[rng.usize(SPECIAL_V6_PREFIX.len())];
+        match rng.below(3) {
+            0 => {}
+            1 => {
+                for b in ip[n..].iter_mut() {
+                    *b = rng.byte();
+                }
+            }
+            _ => ip[12..].copy_from_slice(&SPECIAL_V4[rng.usize(SPECIAL_V4.len())]),
+        }
+        ip[..n].copy_from_slice(&p[..n]);
+        if rng.chance(1, 8) {
+            // ::1 and ::
+            ip = [0; 16];
+            ip[15] = rng.below(2) as u8;
+        }
+    }
+    let port = match rng.below(4) {
+        0 => 0,
+        1 => 3478,
+        2 => 0x2112,
+        _ => rng.next() as u16,
+    };
+    RefAddr { v6, ip, port }
+}
+
 pub fn gen_addr(rng: &mut Rng) -> RefAddr {
     let v6 = rng.chance(1, 2);
     let mut ip = [0u8; 16];
     let n = if v6 { 16 } else { 4 };
-    match rng.below(6) {
+    match rng.below(8) {
         0 => {}
         1 => ip[..n].fill(0xff),
+        6 | 7 => return special_addr(rng, v6),
         2 => {
             // cookie-equal
             let pat = [0x21u8, 0x12, 0xA4, 0x42];
